@@ -21,6 +21,10 @@ import time
 from . import core, term, translate
 
 
+K1_FILES = {'consts': ['GenConsts'], 'c16_translate': ['GenBounds'], 'c19_translate': ['GenUriTables'],
+            'c03_translate': ['GenOrdering'], 'c17_translate': ['GenDescriptor'], 'wire_k1': ['GenCommands', 'GenLayout']}
+
+
 def _case_key(c):
     return json.dumps(c, sort_keys=True)
 
@@ -49,9 +53,19 @@ class Run:
         core.harness_build(crates, release=False)
         if 'release' in mod.MODES:
             core.harness_build(list(mod.CRATES), release=True)
-        tr_ok, tr_log = translate.regenerate()
-        if not tr_ok:
-            self.broken.append('translation K1: ' + tr_log)
+        # K1: every table is regenerated, but only the tables this property rests on can break *this* check
+        # (a source fragment that no longer fits another property's translator is that property's business).
+        # A property rests on a table when its Coq files transitively require the generated file, or when its
+        # driver names the generator's module in K1_DEPENDS.
+        pid = mod.ID.lower()
+        mine = set(getattr(mod, 'K1_DEPENDS', [])) | {'consts', pid, pid + '_translate'}
+        closure = set()
+        for f in [mod.PROP_FILE] + list(mod.EVAL_FILES):
+            closure.update(core.coq_requires(f))
+        for name, ok, lg in translate.regenerate(details=True):
+            uses = any('Generated/%s.v' % g in closure for g in K1_FILES.get(name, []))
+            if not ok and (name in mine or uses):
+                self.broken.append('translation K1 (%s): %s' % (name, lg))
         eval_targets = [f[:-2] + '.vo' for f in mod.EVAL_FILES]
         ok, out = core.coq_build(eval_targets)
         self.eval_ok = ok
